@@ -10,7 +10,9 @@ THEOREMS = [
     "Cspuz.C17.C17_total_problem",
     "Cspuz.C17.C17_total_url",
     "Cspuz.C17.C17_total_puzzles",
+    "Cspuz.C17.C17_reencodable_fails",
     "Cspuz.C17.C17_reencodable_partial",
+    "Cspuz.C17.C17_reencodable_nested",
     "Cspuz.C17.C17_reencodable_puzzles",
 ]
 
